@@ -78,6 +78,13 @@ def generate(rng, libname="liba"):
         ty = "float" if d.endswith("f") else "double"
         h.append(f"  double fl{i}_{n}({ty} d = {d}) const;")
         cx.append(f"double Adv{n}::fl{i}_{n}({ty} d) const {{ return d; }}")
+    if r.random() < 0.6:
+        # writable C strings next to const ones (a string remap must not make them const)
+        feats.append("char-buffers")
+        h += [f"  int fill_{n}(char *buf, int len);", f"  int peek_{n}(const char *s) const;", f"  char *own_{n}();"]
+        cx += [f"int Adv{n}::fill_{n}(char *buf, int len) {{ if (len > 0) buf[0] = 0; return len; }}",
+               f"int Adv{n}::peek_{n}(const char *s) const {{ return s ? s[0] : 0; }}",
+               f"char *Adv{n}::own_{n}() {{ static char b[4]; return b; }}"]
     if r.random() < 0.5:
         feats.append("static-keyword")
         h.append(f"  static int {r.choice(['from_', 'import_', 'class_'])}(int x = -1);")
